@@ -13,7 +13,7 @@ struct Case {
   Files files; std::string main; std::string tag;  // tag: "" or "ladder:<construct>:<size>" (then files are generated)
   std::string json() const { return real::case_json(files, main, tag.empty() ? "" : ",\"tag\":" + vf::jstr(tag)); }
   uint64_t hash() const { uint64_t h = vf::fnv(main); for (auto &p : files) { h = vf::fnv(p.first, h); h = vf::fnv(p.second, h); } return vf::fnv(tag, h); }
-  std::string key() const { if (!tag.empty()) return tag; std::string k; for (auto &p : files) k += p.first + "=" + p.second + "|"; k += "main=" + main; for (auto &c : k) if (c == '\n') c = ' '; return k; }
+  std::string key() const { if (!tag.empty()) return tag.rfind("ladder:", 0) == 0 ? tag : tag; std::string k; for (auto &p : files) k += p.first + "=" + p.second + "|"; k += "main=" + main; for (auto &c : k) if (c == '\n') c = ' '; return k; }
   static Case from(const vf::J &j) { return {j["files"].strmap(), j["main"].s, j.has("tag") ? j["tag"].s : ""}; }
 };
 typedef std::function<void(const Case &)> CB;
@@ -199,6 +199,19 @@ static Level fam_filemaps() {
                 Case d = c; d.files["__standards__"] = "DEFINE foo AS a := 0 ENDDEF"; cb(d);
               } }};
 }
+// every numeric literal form in every numeric position (statement constants, +/- operands, IF constants, call arguments,
+// macro priorities, insertion indices of used and unused macros, temporaries)
+static Level fam_numeric_positions() {
+  return {"literal forms x numeric positions", [=](const CB &cb) {
+            std::vector<std::string> lits = {"0", "7", "2147483646", "2147483647", "2147483648", "4294967295", "4294967296", "4294967297", "9223372036854775807", "9223372036854775808", "18446744073709551615", "18446744073709551616", "99999999999999999999", "1000000000000000000000000000000000000000"};
+            for (auto &l : lits) for (std::string t : {
+                   "a := @", "a := 7 ; a := a + @", "a := 7 ; a := a - @", "la : a := 1 ; IF a = @ THEN GOTO la", "PROGRAM f IN a DO x0 := a END b := RUN f WITH @ END", "LOOP a DO a := @ END",
+                   "DEFINE PRIO @ foo AS a := 0 ENDDEF foo", "DEFINE PRIO @ foo AS a := 0 ENDDEF a := 0", "DEFINE foo <V> AS a := $@ ENDDEF foo 3", "DEFINE foo <V> AS a := $@ ENDDEF a := 0",
+                   "DEFINE foo AS a := $@ ENDDEF foo", "DEFINE foo <V> <V> AS a := $@ ENDDEF foo 1 2", "DEFINE foo AS #@ := 1 ENDDEF foo ; foo", "DEFINE foo @ AS a := 1 ENDDEF foo @", "a := $@", "a := #@"}) {
+              std::string src = t; size_t p; while ((p = src.find('@')) != std::string::npos) src.replace(p, 1, l);
+              cb(single(src));
+            } }};
+}
 static std::string rep(const std::string &s, long n) { std::string o; o.reserve(s.size() * n); for (long i = 0; i < n; i++) o += s; return o; }
 static Files ladder_files(const std::string &construct, long n) {
   Files f;
@@ -221,6 +234,7 @@ static Files ladder_files(const std::string &construct, long n) {
 }
 static Level fam_ladder(int maxlog) {
   return {"size ladder 2^6..2^" + std::to_string(maxlog), [=](const CB &cb) {
+            { Case k; k.main = "main"; k.tag = "growth:slot_duplication"; k.files["main"] = "PROGRAM f IN a, b DO x0 := a END\nDEFINE foo <V> AS foo RUN f WITH $0 , $0 END ENDDEF\nx1 := foo 1"; cb(k); }
             for (std::string c : {"statement_chain", "loop_nesting", "argument_nesting", "label_chain", "stray_separators", "argument_list", "definitions", "macro_body", "macro_pattern", "macro_uses", "include_chain", "long_identifier", "long_literal", "junk_tokens", "unterminated_defines"})
               for (int lg = 6; lg <= maxlog; lg++) {
                 if ((c == "macro_pattern") && lg > 13) continue;   // pattern tables are quadratic: 2^15 takes minutes
@@ -245,7 +259,7 @@ static void oracle_C02(const Case &c0, vf::Stats &st) {
   // The probe itself runs the real scanner, extractor and expander (budget 12) under the sanitizers; the budget logic
   // for diverging macro sets is C11's subject (small budgets, all macro sets).
   bool has_define = false; for (auto &f : c.files) for (const char *d : {"DEFINE", "Define", "Def", "define", "def"}) if (f.second.find(d) != std::string::npos) has_define = true;
-  if (has_define && c.tag.empty()) {
+  if (has_define && c.tag.empty()) {  // (tagged cases - ladder, growth - always go through compile())
     Files pf = c.files;
     pf.insert({"__standards__", "DEFINE PRIO 1000000 <ID> + <INT> AS RUN __INC__ WITH $0, $1 END END DEFINE\nDEFINE PRIO 1000000 <ID> - <INT> AS RUN __DEC__ WITH $0, $1 END END DEFINE\n  "});
     if (pf.count(c.main)) pf[c.main] = "include \"__standards__\"" + pf[c.main];
@@ -256,7 +270,16 @@ static void oracle_C02(const Case &c0, vf::Stats &st) {
     st.add("macro_probes");
     if (diverging) { st.add("skipped_still_rewriting_after_12_steps(left to C11)"); st.nontrivial.insert(c0.hash()); return; }
   }
-  Theo::CodegenResult r = Theo::compile(c.files, c.main);
+  Theo::CodegenResult r;
+  if (c.tag.rfind("growth:", 0) == 0) {
+    // a source whose expansion multiplies the stream: run with an address-space limit so that exhaustion arrives as
+    // std::bad_alloc instead of taking the machine down; a result within the limits would be fine
+    struct rlimit old, lim; getrlimit(RLIMIT_AS, &old); lim = old; lim.rlim_cur = 768ULL << 20; setrlimit(RLIMIT_AS, &lim);
+    std::string thrown;
+    try { r = Theo::compile(c.files, c.main); } catch (std::exception &e) { thrown = e.what(); }
+    setrlimit(RLIMIT_AS, &old);
+    if (!thrown.empty()) { st.violation(key, "compile() did not return a result: it threw '" + thrown + "' after exhausting a 768 MiB address space on a " + std::to_string(c.files.at("main").size()) + "-byte source (the token stream grows geometrically, 1024 passes)", cj); return; }
+  } else r = Theo::compile(c.files, c.main);
   auto S = [](long long x) { return std::to_string(x); };
   if (r.generated_correctly != r.errors.empty()) { st.violation(key, std::string("generated_correctly=") + (r.generated_correctly ? "true" : "false") + " with " + S(r.errors.size()) + " errors", cj); return; }
   for (auto &e : r.errors) {
@@ -309,7 +332,7 @@ int main(int argc, char **argv) {
     auto allseeds = seeds(); for (auto &s : seeds_macro()) allseeds.push_back(s);
     if (args.part == "ladder") { L = {fam_ladder(T ? 17 : 13)}; args.shards = 8; }
     else {
-      L = {fam_filemaps(), fam_sigma(vocab_full(), 2, "full-vocabulary", lib), fam_bytes(3), fam_edits(allseeds, vocab_full(), 0, "seeds:1-edits(full vocabulary)", lib), fam_sigma(vocab_full(), 3, "full-vocabulary", lib)};
+      L = {fam_filemaps(), fam_numeric_positions(), fam_sigma(vocab_full(), 2, "full-vocabulary", lib), fam_bytes(3), fam_edits(allseeds, vocab_full(), 0, "seeds:1-edits(full vocabulary)", lib), fam_sigma(vocab_full(), 3, "full-vocabulary", lib)};
       if (T) { L.push_back(fam_bytes(4)); L.push_back(fam_edits(allseeds, vocab_full(), 6, "seeds:2-edits of seeds<=6 tokens", lib)); L.push_back(fam_sigma(vocab_full(), 4, "full-vocabulary", lib)); L.push_back(fam_bytes(5)); }
     }
   } else if (args.prop == "C04") {
